@@ -55,6 +55,33 @@ type bindSpec struct {
 	ID   uint32
 	Fb   int
 	Tag  int
+	Re   []bindSpec // Bind* calls the handler makes itself when invoked (after recording and sending its feedback)
+}
+
+func bindSx(b bindSpec) []Sx {
+	if len(b.Re) == 0 {
+		return L(b.Kind, b.ID, b.Fb, b.Tag)
+	}
+	re := L()
+	for _, r := range b.Re {
+		re = append(re, Sx(bindSx(r)))
+	}
+	return L(b.Kind, b.ID, b.Fb, b.Tag, re)
+}
+
+func parseBind(n *Node) (bindSpec, bool) {
+	if n == nil || !n.IsList || len(n.Kids) < 4 {
+		return bindSpec{}, false
+	}
+	b := bindSpec{Kind: n.Kids[0].Int(), ID: uint32(n.Kids[1].Int()), Fb: n.Kids[2].Int(), Tag: n.Kids[3].Int()}
+	if len(n.Kids) >= 5 && n.Kids[4].IsList {
+		for _, k := range n.Kids[4].Kids {
+			if r, ok := parseBind(k); ok {
+				b.Re = append(b.Re, r)
+			}
+		}
+	}
+	return b, true
 }
 
 type item struct {
@@ -288,7 +315,7 @@ func itemSx(it item, bin bool) Sx {
 	case "close":
 		return L(Sym("close"), 0)
 	case "bind":
-		return L(Sym("bind"), it.B.Kind, it.B.ID, it.B.Fb, it.B.Tag)
+		return append(L(Sym("bind")), bindSx(it.B)...)
 	}
 	panic("itemSx")
 }
@@ -304,7 +331,7 @@ func itemsSx(its []item, bin bool) []Sx {
 func (sc *scenario) emit(o *observation) {
 	binds := L()
 	for _, b := range sc.Binds {
-		binds = append(binds, Sx(L(b.Kind, b.ID, b.Fb, b.Tag)))
+		binds = append(binds, Sx(bindSx(b)))
 	}
 	segs := L()
 	for _, s := range sc.Segs {
@@ -383,6 +410,11 @@ func feedback(rp *gorwp.RawPanel, id uint32, n int) {
 }
 
 func bindOne(r *runner, rp *gorwp.RawPanel, b bindSpec) {
+	rebind := func() { // what the handler registers itself, from inside the callback
+		for _, nb := range b.Re {
+			bindOne(r, rp, nb)
+		}
+	}
 	switch b.Kind {
 	case 0:
 		rp.BindTrigger(b.ID, func(id uint32, e *rwp.HWCEvent) {
@@ -395,18 +427,20 @@ func bindOne(r *runner, rp *gorwp.RawPanel, b bindSpec) {
 				r.mu.Unlock()
 			}
 			feedback(rp, b.ID, b.Fb)
+			rebind()
 		})
 	case 1:
 		rp.BindBinary(b.ID, func(id uint32, st gorwp.BinaryStatus, ed gorwp.BinaryEdge) {
 			r.record(L(1, id, b.Tag, int(st), int(ed)))
 			feedback(rp, b.ID, b.Fb)
+			rebind()
 		})
 	case 2:
-		rp.BindPulsed(b.ID, func(id uint32, v int) { r.record(L(2, id, b.Tag, v)); feedback(rp, b.ID, b.Fb) })
+		rp.BindPulsed(b.ID, func(id uint32, v int) { r.record(L(2, id, b.Tag, v)); feedback(rp, b.ID, b.Fb); rebind() })
 	case 3:
-		rp.BindAbsolute(b.ID, func(id uint32, v int) { r.record(L(3, id, b.Tag, v)); feedback(rp, b.ID, b.Fb) })
+		rp.BindAbsolute(b.ID, func(id uint32, v int) { r.record(L(3, id, b.Tag, v)); feedback(rp, b.ID, b.Fb); rebind() })
 	case 4:
-		rp.BindIntensity(b.ID, func(id uint32, v int) { r.record(L(4, id, b.Tag, v)); feedback(rp, b.ID, b.Fb) })
+		rp.BindIntensity(b.ID, func(id uint32, v int) { r.record(L(4, id, b.Tag, v)); feedback(rp, b.ID, b.Fb); rebind() })
 	}
 }
 
@@ -915,8 +949,8 @@ func parseItems(n *Node) []item {
 		case "close":
 			its = append(its, item{K: "close"})
 		case "bind":
-			if len(k.Kids) >= 5 {
-				its = append(its, item{K: "bind", B: bindSpec{k.Kids[1].Int(), uint32(k.Kids[2].Int()), k.Kids[3].Int(), k.Kids[4].Int()}})
+			if b, ok := parseBind(&Node{IsList: true, Kids: k.Kids[1:]}); ok {
+				its = append(its, item{K: "bind", B: b})
 			}
 		}
 	}
@@ -943,8 +977,8 @@ func replayC19(line string) {
 	}
 	sc := &scenario{Items: parseItems(n.Kids[1]), Bin: n.Kids[2].Bool()}
 	for _, b := range n.Kids[3].Kids {
-		if len(b.Kids) >= 4 {
-			sc.Binds = append(sc.Binds, bindSpec{b.Kids[0].Int(), uint32(b.Kids[1].Int()), b.Kids[2].Int(), b.Kids[3].Int()})
+		if bs, ok := parseBind(b); ok {
+			sc.Binds = append(sc.Binds, bs)
 		}
 	}
 	in := n.Kids[4]
@@ -1125,7 +1159,7 @@ func (g *gen) randBinds(ids []uint32, maxFb int) []bindSpec {
 				if maxFb > 0 && g.rng.Intn(2) == 0 {
 					fb = 1 + g.rng.Intn(maxFb)
 				}
-				bs = append(bs, bindSpec{k, id, fb, tag})
+				bs = append(bs, bindSpec{Kind: k, ID: id, Fb: fb, Tag: tag})
 				tag++
 			}
 		}
@@ -1170,7 +1204,7 @@ func genC19(tier string, rng *Rng) {
 				id := uint32(100 + p)
 				for k := 0; k < 5; k++ {
 					if p&(1<<uint(k)) != 0 {
-						binds = append(binds, bindSpec{k, id, 0, tag})
+						binds = append(binds, bindSpec{Kind: k, ID: id, Fb: 0, Tag: tag})
 						tag++
 					}
 				}
@@ -1193,7 +1227,7 @@ func genC19(tier string, rng *Rng) {
 		var evs []*rwp.HWCEvent
 		for i, id := range ids {
 			for k := 0; k < 5; k++ {
-				binds = append(binds, bindSpec{k, id, 0, i*5 + k + 1})
+				binds = append(binds, bindSpec{Kind: k, ID: id, Fb: 0, Tag: i*5 + k + 1})
 			}
 			evs = append(evs,
 				&rwp.HWCEvent{HWCID: id, Binary: &rwp.BinaryEvent{Pressed: true, Edge: 255}},
@@ -1219,7 +1253,7 @@ func genC19(tier string, rng *Rng) {
 				if fb == 2 && n > 40 {
 					continue
 				}
-				binds := []bindSpec{{1, 7, fb, 1}, {0, 8, fb, 2}}
+				binds := []bindSpec{{Kind: 1, ID: 7, Fb: fb, Tag: 1}, {Kind: 0, ID: 8, Fb: fb, Tag: 2}}
 				var evs []*rwp.HWCEvent
 				for i := 0; i < n; i++ {
 					evs = append(evs, ev(uint32(7+i%2), 1, rng))
@@ -1260,7 +1294,7 @@ func genC19(tier string, rng *Rng) {
 			g.add(&scenario{Bin: bin, Init: g.stdInit(bin, 0), Items: g.msgItems(bin, alpha[i])})
 			for j := range alpha {
 				if thorough || (i+j)%2 == 0 {
-					g.add(&scenario{Bin: bin, Init: g.stdInit(bin, 1), Binds: []bindSpec{{1, 1, 1, 1}}, Items: g.msgItems(bin, alpha[i], alpha[j])})
+					g.add(&scenario{Bin: bin, Init: g.stdInit(bin, 1), Binds: []bindSpec{{Kind: 1, ID: 1, Fb: 1, Tag: 1}}, Items: g.msgItems(bin, alpha[i], alpha[j])})
 				}
 			}
 		}
@@ -1278,7 +1312,7 @@ func genC19(tier string, rng *Rng) {
 			// binds in the middle of the history (performed from the peer's goroutine, after a sync)
 			if k%3 == 0 && len(sc.Items) > 1 {
 				pos := 1 + rng.Intn(len(sc.Items)-1)
-				b := item{K: "bind", B: bindSpec{rng.Intn(5), ids[rng.Intn(len(ids))], rng.Intn(2), 100 + k}}
+				b := item{K: "bind", B: bindSpec{Kind: rng.Intn(5), ID: ids[rng.Intn(len(ids))], Fb: rng.Intn(2), Tag: 100 + k}}
 				sc.Items = append(sc.Items[:pos], append([]item{b}, sc.Items[pos:]...)...)
 			}
 			if k%4 == 1 {
@@ -1323,7 +1357,7 @@ func genC19(tier string, rng *Rng) {
 				if mask == 15 && lt.k != 0 {
 					continue
 				}
-				sc := &scenario{Bin: bin, Binds: []bindSpec{{1, 1, 0, 1}},
+				sc := &scenario{Bin: bin, Binds: []bindSpec{{Kind: 1, ID: 1, Fb: 0, Tag: 1}},
 					Init:  initSpec{Pre: g.msgItems(bin, pre...), LateK: lt.k, Delay: lt.d},
 					Items: g.msgItems(bin, &rwp.OutboundMessage{Events: []*rwp.HWCEvent{ev(1, 1, rng)}})}
 				if lt.k == 1 {
@@ -1336,7 +1370,7 @@ func genC19(tier string, rng *Rng) {
 
 	// G6 — segmentation: every single and double cut point of a short stream, dribble, random cuts
 	for _, bin := range modes {
-		binds := []bindSpec{{1, 1, 1, 1}, {2, 2, 0, 2}, {0, 1, 0, 3}}
+		binds := []bindSpec{{Kind: 1, ID: 1, Fb: 1, Tag: 1}, {Kind: 2, ID: 2, Fb: 0, Tag: 2}, {Kind: 0, ID: 1, Fb: 0, Tag: 3}}
 		ms := []*rwp.OutboundMessage{
 			{Events: []*rwp.HWCEvent{{HWCID: 1, Binary: &rwp.BinaryEvent{Pressed: true}}}},
 			{FlowMessage: 1},
@@ -1394,19 +1428,19 @@ func genC19(tier string, rng *Rng) {
 			items = append(items, item{K: "f", Data: eventBlob(n), Pause: -1})
 			items = append(items, g.msgItems(true, &rwp.OutboundMessage{Events: []*rwp.HWCEvent{ev(1, 1, rng)}})...)
 		}
-		g.add(&scenario{Bin: true, Init: g.stdInit(true, 0), Binds: []bindSpec{{1, 1, 1, 1}}, Items: items})
+		g.add(&scenario{Bin: true, Init: g.stdInit(true, 0), Binds: []bindSpec{{Kind: 1, ID: 1, Fb: 1, Tag: 1}}, Items: items})
 		one := g.msgItems(true, &rwp.OutboundMessage{Events: []*rwp.HWCEvent{ev(1, 1, rng)}})
 		for _, n := range []int{65536, 499998, 499999} {
-			g.add(&scenario{Bin: true, Init: g.stdInit(true, 0), Binds: []bindSpec{{1, 1, 1, 1}}, Items: append([]item{{K: "fpad", Pad: n, Pause: -1}}, one...)})
+			g.add(&scenario{Bin: true, Init: g.stdInit(true, 0), Binds: []bindSpec{{Kind: 1, ID: 1, Fb: 1, Tag: 1}}, Items: append([]item{{K: "fpad", Pad: n, Pause: -1}}, one...)})
 		}
 		for _, n := range []int{500000, 500001} {
-			g.add(&scenario{Bin: true, Init: g.stdInit(true, 0), Binds: []bindSpec{{1, 1, 1, 1}}, Items: append([]item{{K: "ol", N: uint32(n), Pad: n}}, one...)})
+			g.add(&scenario{Bin: true, Init: g.stdInit(true, 0), Binds: []bindSpec{{Kind: 1, ID: 1, Fb: 1, Tag: 1}}, Items: append([]item{{K: "ol", N: uint32(n), Pad: n}}, one...)})
 		}
 	}
 
 	// G7 — faults at every position of a small stream
 	for _, bin := range modes {
-		binds := []bindSpec{{1, 1, 1, 1}, {0, 2, 0, 2}}
+		binds := []bindSpec{{Kind: 1, ID: 1, Fb: 1, Tag: 1}, {Kind: 0, ID: 2, Fb: 0, Tag: 2}}
 		base := []*rwp.OutboundMessage{
 			{Events: []*rwp.HWCEvent{{HWCID: 1, Binary: &rwp.BinaryEvent{Pressed: true}}}},
 			{FlowMessage: 1, Events: []*rwp.HWCEvent{{HWCID: 2, Absolute: &rwp.AbsoluteEvent{Value: 5}}}},
@@ -1470,6 +1504,97 @@ func genC19(tier string, rng *Rng) {
 			its := append([]item{}, items...)
 			its = append(its[:1], append([]item{{K: "f", Data: nil, Pause: 4}}, its[1:]...)...)
 			g.add(&scenario{Bin: bin, Init: g.stdInit(bin, 0), Binds: binds, Items: its})
+		}
+	}
+
+	// G11 — handlers that call Bind* themselves, from inside the callback (for other ids: "shift" keys arming
+	// other components; for their own id: one-shot handlers replacing themselves; for another kind of the same
+	// id), followed by further events, a ping and a state update.  A registration made by a handler is in
+	// force from the next event on.
+	for _, bin := range modes {
+		one := func(id uint32, pat int) *rwp.OutboundMessage {
+			return &rwp.OutboundMessage{Events: []*rwp.HWCEvent{ev(id, pat, rng)}}
+		}
+		patOf := []int{1, 1, 2, 4, 8} // a payload that kind k (0 trigger .. 4 intensity) reacts to
+		tail := []*rwp.OutboundMessage{{FlowMessage: 1}, {PanelInfo: &rwp.PanelInfo{Name: "after-bind"}}, {FlowMessage: 1, Events: []*rwp.HWCEvent{ev(61, 1, rng)}}}
+		// every kind of handler calling every Bind* function
+		for k := 0; k < 5; k++ {
+			var re []bindSpec
+			for k2 := 0; k2 < 5; k2++ {
+				re = append(re, bindSpec{Kind: k2, ID: uint32(60 + k2), Fb: k2 % 2, Tag: 10 + k2})
+			}
+			arm := bindSpec{Kind: k, ID: uint32(50 + k), Fb: 1, Tag: 1, Re: re}
+			var ms []*rwp.OutboundMessage
+			for k2 := 0; k2 < 5; k2++ {
+				ms = append(ms, one(uint32(60+k2), patOf[k2])) // not armed yet: nothing happens
+			}
+			ms = append(ms, one(uint32(50+k), patOf[k]))
+			for k2 := 0; k2 < 5; k2++ {
+				ms = append(ms, one(uint32(60+k2), patOf[k2]))
+			}
+			ms = append(ms, tail...)
+			ms = append(ms, one(uint32(50+k), patOf[k])) // arming again re-registers the same handlers
+			ms = append(ms, one(60, 1), one(61, 1))
+			g.add(&scenario{Bin: bin, Init: g.stdInit(bin, k), Binds: []bindSpec{arm}, Items: g.msgItems(bin, ms...)})
+		}
+		// a one-shot handler replacing itself, twice, the last one with feedback
+		{
+			h3 := bindSpec{Kind: 1, ID: 30, Fb: 2, Tag: 3}
+			h2 := bindSpec{Kind: 1, ID: 30, Fb: 0, Tag: 2, Re: []bindSpec{h3}}
+			h1 := bindSpec{Kind: 1, ID: 30, Fb: 1, Tag: 1, Re: []bindSpec{h2}}
+			ms := []*rwp.OutboundMessage{one(30, 1), one(30, 1), {FlowMessage: 1}, one(30, 1), one(30, 1)}
+			g.add(&scenario{Bin: bin, Init: g.stdInit(bin, 0), Binds: []bindSpec{h1}, Items: g.msgItems(bin, append(ms, tail...)...)})
+			if bin { // all four events and a ping in ONE frame
+				evs := []*rwp.HWCEvent{ev(30, 1, rng), ev(30, 1, rng), ev(30, 1, rng), ev(30, 1, rng)}
+				g.add(&scenario{Bin: bin, Init: g.stdInit(bin, 0), Binds: []bindSpec{h1}, Items: g.msgItems(bin, &rwp.OutboundMessage{FlowMessage: 1, Events: evs}, tail[0], tail[2])})
+			}
+		}
+		// the trigger handler of an id registers the binary handler of the SAME id while the event is being dispatched
+		{
+			h := bindSpec{Kind: 0, ID: 40, Fb: 0, Tag: 1, Re: []bindSpec{{Kind: 1, ID: 40, Fb: 1, Tag: 2}, {Kind: 0, ID: 41, Fb: 0, Tag: 3}}}
+			ms := []*rwp.OutboundMessage{one(40, 1), one(40, 1), one(41, 1)}
+			g.add(&scenario{Bin: bin, Init: g.stdInit(bin, 1), Binds: []bindSpec{h}, Items: g.msgItems(bin, append(ms, tail...)...)})
+		}
+		// a burst: every invocation re-registers and sends feedback
+		{
+			h := bindSpec{Kind: 1, ID: 7, Fb: 1, Tag: 1}
+			h.Re = []bindSpec{{Kind: 1, ID: 7, Fb: 1, Tag: 1, Re: []bindSpec{{Kind: 1, ID: 7, Fb: 1, Tag: 5}}}, {Kind: 2, ID: 8, Fb: 0, Tag: 2}}
+			var each []*rwp.OutboundMessage
+			var evs []*rwp.HWCEvent
+			for i := 0; i < 40; i++ {
+				e := ev(7, 1, rng)
+				evs = append(evs, e)
+				each = append(each, &rwp.OutboundMessage{Events: []*rwp.HWCEvent{e}})
+			}
+			g.add(&scenario{Bin: bin, Init: g.stdInit(bin, 1), Binds: []bindSpec{h}, Items: g.msgItems(bin, append(each, tail...)...)})
+			if bin {
+				g.add(&scenario{Bin: bin, Init: g.stdInit(bin, 1), Binds: []bindSpec{h}, Items: g.msgItems(bin, &rwp.OutboundMessage{Events: evs}, tail[0], tail[2])})
+			}
+		}
+		// random histories in which some of the initial handlers register others
+		nrb := 20
+		if thorough {
+			nrb = 200
+		}
+		for k := 0; k < nrb; k++ {
+			ids := []uint32{1, 2, 3, 4}
+			binds := g.randBinds(ids[:3], 1)
+			for i := range binds {
+				if rng.Intn(2) == 0 {
+					for n := 1 + rng.Intn(2); n > 0; n-- {
+						nb := bindSpec{Kind: rng.Intn(5), ID: ids[rng.Intn(len(ids))], Fb: rng.Intn(2), Tag: 200 + 10*i + n}
+						if rng.Intn(3) == 0 {
+							nb.Re = []bindSpec{{Kind: rng.Intn(5), ID: ids[rng.Intn(len(ids))], Fb: 0, Tag: 300 + 10*i + n}}
+						}
+						binds[i].Re = append(binds[i].Re, nb)
+					}
+				}
+			}
+			var ms []*rwp.OutboundMessage
+			for n := 3 + rng.Intn(10); n > 0; n-- {
+				ms = append(ms, g.randMsg(ids))
+			}
+			g.add(&scenario{Bin: bin, Init: g.stdInit(bin, k), Binds: binds, Items: g.msgItems(bin, ms...)})
 		}
 	}
 
